@@ -316,6 +316,58 @@ async fn run(name: &str) -> Result<(), String> {
             let _ = std::fs::remove_dir_all(&dir);
             Ok(())
         }
+        // C13 (BOUNDED: 10 seeded sequences of 5 run-time configuration changes over 2 disjoint directories x {absent, recursive, non-recursive}, native
+        // watcher, real file system): once the changes stop, events arrive exactly as configured (a file written in a configured directory is reported;
+        // one written in its subdirectory is reported iff the watch is recursive; nothing from an unconfigured directory). A mismatch is reported only
+        // if it persists over three rounds (convergence). The configured directories never overlap: what notify does with overlapping registrations
+        // (removing a nested one drops its descriptor although an enclosing recursive watch remains) is the dependency's business, not C13's.
+        "config_sequences_bounded" => {
+            use std::sync::Mutex;
+            let seen: Arc<Mutex<Vec<std::path::PathBuf>>> = Arc::new(Mutex::new(vec![]));
+            let s2 = seen.clone();
+            let wx = Watchexec::new(move |action| { let mut g = s2.lock().unwrap(); for (p, _) in action.paths() { g.push(p.to_owned()); } drop(g); action }).map_err(|e| e.to_string())?;
+            wx.config.throttle(Duration::from_millis(20));
+            let main = wx.main();
+            let dirs = [dir.join("p"), dir.join("q")];
+            for d in &dirs { std::fs::create_dir_all(d.join("sub")).unwrap(); }
+            let mut round = 0usize;
+            for seed in 1..=10u64 {
+                let mut rng = seed.wrapping_mul(0x9E37_79B9_7F4A_7C15) | 1;
+                let mut next = || { rng ^= rng << 13; rng ^= rng >> 7; rng ^= rng << 17; rng };
+                let mut modes = [0u64; 2];      // 0 absent, 1 recursive, 2 non-recursive
+                let mut hist: Vec<String> = vec![];
+                for _ in 0..5 {
+                    let mut cfg: Vec<WatchedPath> = vec![];
+                    for (k, d) in dirs.iter().enumerate() { modes[k] = next() % 3; match modes[k] { 0 => {}, 1 => cfg.push(WatchedPath::recursive(d.clone())), _ => cfg.push(WatchedPath::non_recursive(d.clone())) } }
+                    hist.push(format!("p:{} q:{}", ["-", "rec", "flat"][modes[0] as usize], ["-", "rec", "flat"][modes[1] as usize]));
+                    wx.config.pathset(cfg);
+                    match next() % 3 { 0 => {}, 1 => tokio::time::sleep(Duration::from_millis(3)).await, _ => tokio::time::sleep(Duration::from_millis(60)).await }
+                }
+                // probes: p/x, p/sub/x, q/x, q/sub/x
+                let expect = [modes[0] != 0, modes[0] == 1, modes[1] != 0, modes[1] == 1];
+                let mut last_problem = String::new();
+                let mut ok = false;
+                for _attempt in 0..3 {
+                    tokio::time::sleep(Duration::from_millis(400)).await;
+                    round += 1;
+                    seen.lock().unwrap().clear();
+                    let names: Vec<String> = (0..4).map(|i| format!("r{round}_{i}.txt")).collect();
+                    let places = [dirs[0].clone(), dirs[0].join("sub"), dirs[1].clone(), dirs[1].join("sub")];
+                    for (d, n) in places.iter().zip(&names) { std::fs::write(d.join(n), "x").unwrap(); }
+                    let has = |g: &Vec<std::path::PathBuf>, i: usize| g.iter().any(|p| p.file_name().map_or(false, |f| f == names[i].as_str()));
+                    for _ in 0..100 { let g = seen.lock().unwrap().clone(); if (0..4).all(|i| !expect[i] || has(&g, i)) { break; } tokio::time::sleep(Duration::from_millis(50)).await; }
+                    tokio::time::sleep(Duration::from_millis(300)).await;
+                    let g = seen.lock().unwrap().clone();
+                    let got: Vec<bool> = (0..4).map(|i| has(&g, i)).collect();
+                    if got == expect { ok = true; break; }
+                    last_problem = format!("files written in p, p/sub, q, q/sub are reported {got:?}, the final configuration says {expect:?}");
+                }
+                if !ok { main.abort(); let _ = std::fs::remove_dir_all(&dir); return Err(format!("sequence {seed}, path sets {hist:?}: after the changes stopped, {last_problem} (three rounds)")); }
+            }
+            main.abort();
+            let _ = std::fs::remove_dir_all(&dir);
+            Ok(())
+        }
         _ => Err(format!("unknown scenario {name}")),
     }
 }
